@@ -863,6 +863,19 @@ func Apply(ctx context.Context, repo gitstore.Storer, signRSLEntry bool) error {
 		return fmt.Errorf("staged policy is invalid: %w", err)
 	}
 
+	if !policyTip.IsZero() {
+		// Verification only accepts a policy state whose root of trust is
+		// signed as required by the state it replaces, so a staged state
+		// that does not meet that must not be published either
+		currentState, err := LoadCurrentState(ctx, repo, PolicyRef)
+		if err != nil {
+			return fmt.Errorf("failed to load current policy: %w", err)
+		}
+		if err := currentState.VerifyNewState(ctx, state); err != nil {
+			return fmt.Errorf("staged policy cannot be verified using current policy: %w", err)
+		}
+	}
+
 	// Update the reference for the base to point to the new commit
 	if err := repo.SetReference(PolicyRef, policyStagingTip); err != nil {
 		return fmt.Errorf("failed to set new policy reference: %w", err)
